@@ -45,7 +45,16 @@ class Fl:
         return "Fl(%s%s)" % (self.v, "" if z3.is_false(self.nan) else ", nan=%s" % self.nan)
 
 
+class Tm(Fl):
+    """a datetime / Timestamp: seconds on one naive time line. Always truthy (unlike a float 0.0)."""
+    __slots__ = ()
+
+
 NAN = None  # filled below
+CURRENT = [None]     # the interpreter of the path being executed (one per process at a time)
+
+
+
 
 
 def nanval():
@@ -140,6 +149,23 @@ class Opaque:
         return "<opaque %s>" % self.tag
 
 
+Act = z3.DeclareSort("Act")      # opaque actions / events carried through queues
+arr_at = z3.Function("arr_at", Act, IntS, RealS)
+arr_nan = z3.Function("arr_nan", Act, IntS, BoolS)
+arr_len = z3.Function("arr_len", Act, IntS)
+
+
+class ActV:
+    """an opaque action value (element of a gym space)"""
+    __slots__ = ("t",)
+
+    def __init__(self, t):
+        self.t = t
+
+    def __repr__(self):
+        return "Act(%s)" % self.t
+
+
 class Arb:
     """a value of a location the contracts do not model (e.g. an attribute added to a class): arbitrary.
     Comparisons with it are arbitrary booleans; nothing else is known about it."""
@@ -191,6 +217,14 @@ def vite(c, a, b):
         return In(z3.If(c, a.v, b.v))
     if isinstance(a, KeyV) and isinstance(b, KeyV):
         return KeyV(z3.If(c, a.t, b.t))
+    if isinstance(a, ActV) and isinstance(b, ActV):
+        return ActV(z3.If(c, a.t, b.t))
+    if isinstance(a, Obj) and isinstance(b, Obj) and CURRENT[0] is not None:
+        I = CURRENT[0]
+        pa, pb = I.heap.get(a.oid, {}), I.heap.get(b.oid, {})
+        if "act" in pa and "act" in pb:
+            from .models import act_array
+            return act_array(I, z3.If(c, pa["act"], pb["act"]))
     if isinstance(a, (bool,)) or is_symbool(a):
         return z3.If(c, tobool(a), tobool(b))
     if isinstance(a, (int, float)) and isinstance(b, (int, float)):
